@@ -134,6 +134,10 @@ def judge_group(comp, results):
         if convex and comp["solver"]["name"] not in ("FISTA", "PDCD_WS", "LBFGS"):
             for (a, Fa, b, Fb, tag) in ((w, F, wr, Fr, f"{st} vs {ref_st}"), (wr, Fr, w, F, f"{ref_st} vs {st}")):
                 nu = RC.violation(prob, a, C.strategy_of(comp["solver"]) if False else "subdiff", "cd")[0]
+                if C.strategy_of(comp["solver"]) == "subdiff":
+                    # both representations claimed stop_crit <= tol under the subdifferential criterion: "the same solution up to solver
+                    # tolerance" - a representation whose true violation is far above what it claimed must not widen the bound
+                    nu = min(nu, 10 * tol)
                 bound = max(nu, tol) * float(np.sum(np.abs(a - b))) + 1e-9 * (1 + abs(Fb))
                 if Fa - Fb > bound:
                     out.append(("objective_differs_between_representations", tag, Fa - Fb, f"<= {bound}"))
@@ -150,7 +154,9 @@ def R_first(pk, ps_list):
 def comps_for(task, tier):
     s, dn, pk = task["solver"], task["datafit"], task["pen"]
     kind = R.KIND[dn]
-    for xid, X in [("tall6x3", A.G_TALL), ("wide-zeromid", A.Z()["wide3x5-zeromid"]), ("sq4x4", A.G_SQ)] + ([("dup", A.K()["dup"])] if tier != "quick" else []):
+    # (hadamard: every column sums to zero - the power method of the sparse constants must not depend on its start vector)
+    for xid, X in [("tall6x3", A.G_TALL), ("wide-zeromid", A.Z()["wide3x5-zeromid"]), ("sq4x4", A.G_SQ), ("hadamard", A.O()["hadamard4x3"])] + \
+            ([("dup", A.K()["dup"])] if tier != "quick" else []):
         ys = [R.targets(kind, X, tier)[0][1]]
         if kind == "multi":                     # a task that stays exactly zero while the others move
             ys.append(np.column_stack([np.zeros(X.shape[0]), ys[0][:, 0]]))
@@ -161,6 +167,8 @@ def comps_for(task, tier):
             Xeff = (X * y[:, None]).T if dn == "QuadraticSVC" else X
             fi_default = R.KNOBS.get(s, {}).get("fit_intercept", (False,))[0]
             ps_list = R.penalty_specs(pk, dspec, Xeff, y, fi_default, tier)
+            if dn == "WeightedQuadratic":          # a strength between sum(weights)/n and 1 times the critical one (normalisation slips)
+                ps_list = ps_list + R.penalty_specs(pk, dspec, Xeff, y, fi_default, tier, fracs=(0.7,))
             for ps in ps_list:
                 kw = dict(c01.HARNESS_DEFAULTS.get(s, {}))
                 kw["tol"] = 1e-9 if s not in ("MultiTaskBCD",) else 1e-9
@@ -173,7 +181,7 @@ def comps_for(task, tier):
                             penalty=ps, X=X.tolist(), y=y.tolist(), xid=xid)
                 yield base
                 # the same problem from a warm start that is non-zero on every feature (zero columns included)
-                if s not in ("FISTA", "PDCD_WS", "LBFGS") and xid in ("tall6x3", "wide-zeromid") and ps is R_first(pk, ps_list):
+                if s not in ("FISTA", "PDCD_WS", "LBFGS") and xid in ("tall6x3", "wide-zeromid") and ps is R_first(pk, ps_list) and dspec is dspecs[0]:
                     fi = bool(kw.get("fit_intercept", fi_default)) and s not in ("GramCD",)
                     T = y.shape[1] if kind == "multi" else 0
                     w0 = np.array([0.5, -1.0, 0.25, 2.0, -0.5][:Xeff.shape[1]] if dn != "QuadraticSVC" else [0.5, 0.1, 0.25, 0.0, 0.3, 0.2][:Xeff.shape[1]])
